@@ -102,7 +102,9 @@ ExpChild(ev) == IF Reentry(ev) THEN <<Top.A, 1, Top.cf>> ELSE <<ExpA(Top), ExpAf
 \* 1: the state rule, 2: an action-based state switch, 0: no state scope
 \* (the action-based switch comes first: for change_action_and_state(s) the state<> rule itself is only reached in the
 \* re-entered invocation, which runs under the new action family and therefore has no switch of its own)
-ScopeKind(f) == IF FrameSw(f) \in {1, 2, 4, 5, 9, 10} THEN 2 ELSE IF OpOf(f.r) = "state" THEN 1 ELSE 0
+\* (and a state<> rule that carries a plain change_action is likewise only reached in the re-entry: its outer invocation
+\* is no state scope)
+ScopeKind(f) == IF FrameSw(f) \in {1, 2, 4, 5, 9, 10} THEN 2 ELSE IF FrameSw(f) = 3 THEN 0 ELSE IF OpOf(f.r) = "state" THEN 1 ELSE 0
 \* the state type can only be default-constructed (change_states always default-constructs)
 DefaultedOK(f) == FrameSw(f) \in {2, 5, 9, 10} \/ (OpOf(f.r) = "state" /\ Nodes[f.r].p = <<1>>)
 GuardedOpen == Cardinality({j \in 1..Len(stk) : FrameLim(stk[j]) = 1 /\ VisibleF(stk[j])})
